@@ -85,9 +85,7 @@ theorem gcdFar_eq_angle (ra1 dec1 ra2 dec2 : ℝ) :
     whose default is 0) does not satisfy this: at `a = t` neither branch is chosen. -/
 theorem gcd_select_total (a far sep : Float) :
     Gen.C17.gcdSelect a far sep = far ∨ Gen.C17.gcdSelect a far sep = sep := by
-  simp only [Gen.C17.gcdSelect]
-  repeat' split
-  all_goals first | exact Or.inl rfl | exact Or.inr rfl
+  simp only [Gen.C17.gcdSelect] <;> (repeat' split) <;> first | exact Or.inl rfl | exact Or.inr rfl | exact Or.inr trivial | exact Or.inl trivial
 
 /-- What `gcd` returns: `np.where(a > 0.5, far, sep)` — whichever branch is selected
     (`gcd_select_total`: it is always one of the two).  All metric
